@@ -121,11 +121,30 @@ def gen_case(ctx, refs=False, malformed=0.0, depth=None):
     depth = depth if depth is not None else r.choice([1, 2, 2, 3])
     if refs:
         schema, store, wdocs, info = ctx.g.ref_schema(tag, depth)
+    elif r.random() < 0.06:
+        schema, store, wdocs, info = ctx.g.interplay(tag), {}, {}, {"kinds": []}
     else:
         schema, store, wdocs, info = ctx.g.schema(tag, depth), {}, {}, {"kinds": []}
     if malformed and r.random() < malformed:
         schema = ctx.g.malform(schema, r.choice([1, 1, 2]))
+    if not MODEL_READS_FALSY_REFS:
+        schema = no_falsy_refs(schema)
     return tag, schema, store, wdocs, info
+
+
+# `urljoin(base, url)` starts with `if not url: return base`: a falsy non-string `$ref` (None, 0, false,
+# [], {} — Drafts 3 and 4 accept them) is read as the empty reference. The model said TypeError there
+# until its `kwRef` was repaired (JS.refString); with the flag off, generated schemas spell such
+# references as "" (the same behaviour on the implementation side).
+MODEL_READS_FALSY_REFS = False
+
+
+def no_falsy_refs(x):
+    if isinstance(x, dict):
+        return dict((k, ("" if (k == "$ref" and not isinstance(v, str) and not v) else no_falsy_refs(v))) for k, v in x.items())
+    if isinstance(x, list):
+        return [no_falsy_refs(v) for v in x]
+    return x
 
 
 def val_pair(ctx, case, wdocs=None, fail_at=()):
@@ -1279,9 +1298,80 @@ def c07_soak(ctx):
         res.distribution["soak histories"] += 1
 
 
+def c07_routes(ctx):
+    """histories on ONE validator whose schema reaches the same reference by two routes, or two
+    documents by nearly the same URI, or is asked again after an iterator was held open across another
+    call: every judged answer is compared with a fresh validator (same store) asked that question only.
+      (a) a relative reference below a nested id, reached through its parent (base: the id) and through
+          a JSON pointer from elsewhere (base: the root) — two different targets, both present;
+      (b) two documents whose URIs differ by a trailing slash only;
+      (c) an iterator parked inside a cross-document reference while another top-level call runs, then
+          closed (or dropped): afterwards the validator answers as a fresh one."""
+    res, r = ctx.res, ctx.r
+    kinds = list(gen.SIMPLE_TYPES)
+    vals = {"array": [], "boolean": True, "integer": 1, "null": None, "number": 1.5, "object": {}, "string": "s"}
+    for n in range(ctx.n(10)):
+        tag = r.choice(DRAFT_TAGS)
+        cls = impl.DRAFTS[tag]
+        idk = "id" if tag in ("d3", "d4") else "$id"
+        ka, kb, kc, kd = r.sample([k for k in kinds if k != "number"], 4)
+        base = "http://ex.org/root/main.json"
+        remote = {"http://ex.org/people/person/": {"type": kc}, "http://ex.org/people/person": {"type": kd}}   # retrieved, not stored
+        store = {"http://ex.org/root/ta/item.json": {"type": ka}, "http://ex.org/root/item.json": {"type": kb},
+                 "http://ex.org/other.json": {"definitions": {"x": {"type": "string"}, "deep": {"items": {"properties": {"k": {"type": "integer"}}}}}}}
+        schema = {idk: base, "properties": {
+            "viaParent": {idk: "ta/", "items": {"$ref": "item.json"}},
+            "viaPointer": {"$ref": "#/properties/viaParent/items"},
+            "slash": {"$ref": "http://ex.org/people/person/"},
+            "noslash": {"$ref": "http://ex.org/people/person"},
+            "far": {"$ref": "http://ex.org/other.json#/definitions/deep"},
+            "local": {"$ref": "#/definitions/x"}},
+            "definitions": {"x": {"type": "integer"}}}
+        probes = [{"viaParent": [vals[k]]} for k in (ka, kb)] + [{"viaPointer": vals[k]} for k in (ka, kb)] \
+            + [{"slash": vals[k]} for k in (kc, kd)] + [{"noslash": vals[k]} for k in (kc, kd)] \
+            + [{"far": [{"k": "bad"}, {"k": 1}]}, {"local": "s"}, {"local": 1}]
+
+        def mk():
+            sc = copy.deepcopy(schema)
+            return cls(sc, resolver=V.RefResolver(base, sc, store=copy.deepcopy(store),
+                                                  handlers={"http": lambda u: copy.deepcopy(remote[u])}))
+
+        def answer(v, x):
+            try:
+                return sorted((list(e.absolute_path), e.validator, e.message) for e in v.iter_errors(x))
+            except Exception as exc:        # noqa: BLE001
+                return "raised:" + type(exc).__name__
+
+        used = mk()
+        seq = list(probes)
+        r.shuffle(seq)
+        case = {"cls": tag, "schema": schema, "store": store, "retrievable": remote}
+        res.note(khash(["c07routes", tag, n]), True, None)
+        for k, x in enumerate(seq):
+            if r.random() < 0.35:
+                # (c) park an iterator at its first error inside a reference, make another call, let go
+                it = used.iter_errors(r.choice([{"far": [{"k": "bad"}, {"k": "worse"}]}, {"slash": vals[kd], "noslash": vals[kc]}]))
+                try:
+                    next(it, None)
+                    used.is_valid(r.choice(probes))
+                    if r.random() < 0.5:
+                        it.close()
+                except Exception:       # noqa: BLE001
+                    pass
+                del it
+            got, want = answer(used, x), answer(mk(), x)
+            if got != want:
+                res.fail("history-dependent:routes",
+                         "question %d of a history on one validator, %r: %r; a fresh validator says %r" % (k, x, got, want),
+                         dict(case, seq=seq, at=k))
+                break
+        res.distribution["route/slash/held-iterator histories"] += 1
+
+
 def c07_all(ctx):
     c07_twins(ctx)
     c07_soak(ctx)
+    c07_routes(ctx)
     c07(ctx)
 
 
@@ -1663,8 +1753,11 @@ def c10(ctx):
                 dict(reject, **{fid: u}), [dict(reject, **{fid: u})], {"inner": dict(reject, **{fid: u + "#"})}])
             res.distribution["foreign id naming a retrieved document"] += 1
         rspec = {"store": [[k, v] for k, v in store.items()]}
-        for _ in range(2):
+        for _n in range(3):
             inst = ctx.g.instance_for(tag, schema)
+            if _n == 2:
+                # `null` (what "nullable"-like extensions of other dialects are about): at the root or at a leaf
+                inst = None if ctx.r.random() < 0.5 else nullify(ctx, inst)
             case = {"cls": tag, "schema": schema, "schema2": s2, "inst": inst}
             outs = []
             for s in (schema, s2):
@@ -1685,6 +1778,28 @@ def c10(ctx):
         m, i = val_pair(ctx, c, wdocs)
         if multiset(m.get("errs", [])) != multiset(i.get("errs", [])) or corr.diff(m.get("stop"), i.get("stop")):
             res.disagree("VAL", c, m, i, corr.diff(m, i))
+
+
+def nullify(ctx, x):
+    """x with one randomly chosen member/element replaced by null"""
+    x = copy.deepcopy(x)
+    spots = []
+
+    def walk(v):
+        if isinstance(v, dict):
+            for k in v:
+                spots.append((v, k))
+                walk(v[k])
+        elif isinstance(v, list):
+            for i in range(len(v)):
+                spots.append((v, i))
+                walk(v[i])
+    walk(x)
+    if not spots:
+        return None
+    c, k = ctx.r.choice(spots)
+    c[k] = None
+    return x
 
 
 def foreign_names(a, b):
@@ -1740,6 +1855,8 @@ def c11_overflowing_literals(ctx):
 def c11(ctx):
     res = ctx.res
     c11_histories(ctx)
+    c11_held_iterator(ctx)
+    c11_fresh_process(ctx)
     c11_overflowing_literals(ctx)
     # each bundled metaschema is accepted by its own class
     for tag in DRAFT_TAGS:
@@ -1830,6 +1947,87 @@ def c11_histories(ctx):
             V.validators.update(saved_v)
             V.meta_schemas.store.clear()
             V.meta_schemas.store.update(saved_m)
+
+
+def c11_held_iterator(ctx):
+    """check_schema while somebody holds a half-consumed iterator of the same metaschema validation
+    (the candidate being the SAME Python object, or sharing its defective part): the verdict is the
+    metaschema's, as always"""
+    res = ctx.res
+    cands = [{"properties": {"name": {"type": 12}}}, {"items": {"minLength": -1}}, {"properties": {"a": {"properties": {"b": {"enum": 3}}}}},
+             {"additionalProperties": {"maxItems": "many"}}, {"properties": {"ok": {"type": "string"}, "bad": {"minimum": "0"}}}]
+    for tag in DRAFT_TAGS:
+        cls = impl.DRAFTS[tag]
+        for cand in cands:
+            cand = copy.deepcopy(cand)
+            part = next(iter(cand.values()))
+            sharing = {"properties": {"wrapped": cand}, "dependencies": {"k": part if isinstance(part, dict) and tag != "d3" else cand}}
+            want = [verdict_check_schema(cls, copy.deepcopy(c), fresh=True) for c in (cand, sharing)]
+            it = cls(cls.META_SCHEMA).iter_errors(cand)
+            first = next(it, None)
+            got = [verdict_check_schema(cls, c) for c in (cand, sharing)]
+            it.close()
+            res.note(khash(["c11held", tag, cand]), True, None)
+            if got != want or first is None:
+                res.fail("check_schema-while-iterator-held",
+                         "with a metaschema validation of the same candidate suspended at its first error, check_schema gave %r; the metaschema says %r" % (got, want),
+                         {"cls": tag, "candidate": cand})
+
+
+C11_FRESH_SCRIPT = r"""
+import copy, json, sys, warnings
+warnings.simplefilter("ignore")
+from jsonschema import validators as V
+cls = {"d3": V.Draft3Validator, "d4": V.Draft4Validator, "d6": V.Draft6Validator, "d7": V.Draft7Validator}[sys.argv[1]]
+cands = json.loads(sys.argv[2])
+# FIRST thing this process does: validate with a house variant of the metaschema (same id, other definitions)
+house = copy.deepcopy(cls.META_SCHEMA)
+names = list(house.get("definitions", {}))
+for n in names:
+    house["definitions"][n] = {"type": "string"}
+house["properties"] = dict(("v%d" % k, {"$ref": "#/definitions/" + n}) for k, n in enumerate(names))
+house["properties"]["self"] = {"$ref": "#"}
+try:
+    v = cls(house)
+    for k in range(len(names)):
+        v.is_valid({"v%d" % k: 1}); list(v.iter_errors({"v%d" % k: "s", "self": {}}))
+except Exception:
+    pass
+out = []
+for c in cands:
+    try:
+        cls.check_schema(c); out.append("ok")
+    except V.exceptions.SchemaError:
+        out.append("SchemaError")
+    except Exception as exc:
+        out.append(type(exc).__name__)
+print(json.dumps(out))
+"""
+
+
+def c11_fresh_process(ctx):
+    """a fresh interpreter whose FIRST use of the library is a validation with a house variant of a
+    draft's metaschema (same id, other definitions); check_schema afterwards still judges by the
+    bundled metaschema (whatever is remembered per URI must not outlive the resolver it belongs to)"""
+    res = ctx.res
+    import subprocess
+    cands = [{"maxLength": 0}, {"maxLength": "long"}, {"type": "null"}, {"minItems": -1}, {"items": [{}]}, {"required": "a"},
+             {"properties": {"a": {"maxItems": 2}}}, {"properties": {"a": {"maxItems": "2"}}}, {"type": ["string", "null"]}, {"type": "strng"}]
+    env = dict(os.environ, PYTHONPATH=impl.REPO)
+    for tag in DRAFT_TAGS:
+        cls = impl.DRAFTS[tag]
+        want = [verdict_check_schema(cls, c, fresh=True) for c in cands]
+        try:
+            p = subprocess.run([sys.executable, "-c", C11_FRESH_SCRIPT, tag, json.dumps(cands)], env=env, stdout=subprocess.PIPE,
+                               stderr=subprocess.PIPE, text=True, timeout=60)
+            got = json.loads(p.stdout.strip().splitlines()[-1])
+        except Exception as exc:        # noqa: BLE001
+            got = "subprocess failed: %s" % type(exc).__name__
+        res.note(khash(["c11fresh", tag]), True, None)
+        if got != want:
+            res.fail("check_schema-after-house-variant:" + tag,
+                     "in a fresh process that first validated with a house variant of the %s metaschema, check_schema gave %r; the bundled metaschema says %r" % (tag, got, want),
+                     {"cls": tag, "candidates": cands})
 
 
 def verdict_check_schema(cls, schema, fresh=False):
@@ -2035,13 +2233,14 @@ def c15(ctx):
             kinds = ["integer", "string", "boolean", "array", "object", "null"]
             ctx.r.shuffle(kinds)
             n = ctx.r.randrange(2, 7)
-            ptr = ctx.r.choice(["/definitions/item", "/defs/a", "/x/0", "/a~1b"])
+            ptr = ctx.r.choice(["/definitions/item", "/defs/a", "/x/0", "/a~1b", "/definitions/group/item", "/defs/a/0/b",
+                                "/x/0/y/1", "/components/schemas/a~1b/value", "/a/b/c/d/e"])
             toks = [t.replace("~1", "/").replace("~0", "~") for t in ptr.split("/")[1:]]
             wdocs, store = {}, {}
             for k in range(n):
                 doc = {"type": kinds[k]}
                 for t in reversed(toks):
-                    doc = [doc] if t == "0" else {t: doc, "title": "doc %d" % k}
+                    doc = [doc] if t == "0" else [{"title": "filler"}, doc] if t == "1" else {t: doc, "title": "doc %d" % k}
                 wdocs["http://ex.org/sib%d.json" % k] = doc
             schema = {"properties": dict(("p%d" % k, {"$ref": "http://ex.org/sib%d.json#%s" % (k, ptr)}) for k in range(n))}
             vals = {"integer": 1, "string": "s", "boolean": True, "array": [], "object": {}, "null": None}
@@ -2320,6 +2519,14 @@ def c17(ctx):
                         if child.total_errors != 0 or list(child):
                             res.fail("tree-errorfree-nonempty", "tree%r[%r] is not empty" % (pre, k), case)
                             reported = True
+                        elif isinstance(sub[k], (dict, list)) and len(sub[k]):
+                            # … and so is what lies below it (chained lookups, two levels below an
+                            # error-free element; whatever they leave behind must not show in other trees)
+                            k2 = next(iter(sub[k])) if isinstance(sub[k], dict) else 0
+                            grand = child[k2]
+                            if grand.total_errors != 0 or list(grand):
+                                res.fail("tree-errorfree-nonempty", "tree%r[%r][%r] is not empty" % (pre, k, k2), case)
+                                reported = True
                     except Exception as exc:       # noqa: BLE001
                         here = [e for e in perm if list(e.path) == pre]
                         why = "propertyNames" if here and "propertyNames" in list(here[-1].absolute_schema_path) else "other"
@@ -2654,7 +2861,7 @@ import chan_ref     # noqa: E402
 
 plan("C02", chan_ref.campaign, **chan_ref.PLAN)
 plan("C12", chan_fmt.c12_all, **chan_fmt.PLAN12)
-plan("C13", chan_fmt.c13, **chan_fmt.PLAN13)
+plan("C13", chan_fmt.c13_all, **chan_fmt.PLAN13)
 plan("C16", chan_der.campaign, **chan_der.PLAN)
 plan("C18", chan_sys.campaign, **chan_sys.PLAN)
 plan("C19", chan_cli.campaign, **chan_cli.PLAN)
